@@ -148,6 +148,7 @@ class Interp:
         self.max_steps = max_steps
         self.out = []
         self.mod_frame = {}
+        self.frames = []          # frame stack (innermost last)
 
     # ------------------------------------------------------------ frames
     def make_locals(self, routine, frame):
@@ -333,6 +334,9 @@ class Interp:
                 v = self.ev(s, fr)
                 if isinstance(v, ArrV):
                     raise Trap("vector subscript not supported")
+                if v < lo or v > hi:
+                    raise Trap("index %d of '%s' outside %d:%d" % (
+                        v, obj.name, lo, hi))
                 lists.append([v])
         if not shape:
             return [obj.cell(tuple(l[0] for l in lists))], None
@@ -617,6 +621,8 @@ class Interp:
                 self.where(s, fr)
             elif t == "call":
                 self.call_routine(s[1], s[2], fr, want_result=False)
+            elif t == "icallsub":
+                self.intrinsic_sub(s, fr)
             elif t == "verb":
                 pass
             elif t == "exit":
@@ -627,8 +633,29 @@ class Interp:
                 raise _Return()
             else:
                 raise ValueError("stmt %r" % (s,))
-        finally:
-            self.tr.stmt(s, 1)
+        except BaseException:
+            self.tr.stmt(s, 3)          # left abnormally (trap / exit / ...)
+            raise
+        self.tr.stmt(s, 1)
+
+    def intrinsic_sub(self, s, fr):
+        name = s[1].upper()
+        if name == "RANDOM_NUMBER":
+            cells, shape = self.designate(s[2][0], fr)
+            for c in cells:
+                self.wr(c, 0.25)        # any value in [0,1)
+        elif name == "MVBITS":
+            frm = self.ev(s[2][0], fr)
+            pos = self.ev(s[2][1], fr)
+            ln = self.ev(s[2][2], fr)
+            cells, _ = self.designate(s[2][3], fr)
+            topos = self.ev(s[2][4], fr)
+            old = self.rd(cells[0])
+            mask = ((1 << ln) - 1)
+            bits = (frm >> pos) & mask
+            self.wr(cells[0], (old & ~(mask << topos)) | (bits << topos))
+        else:
+            raise ValueError("intrinsic subroutine " + name)
 
     def assign(self, lhs, rhs, fr):
         val = self.ev(rhs, fr)          # RHS (and its reads) first
@@ -781,10 +808,13 @@ class Interp:
                 raise Trap("dummy array '%s' larger than actual" % nm)
             new[nm] = Arr(nm, bounds, cells[:n], d["ty"])
         self.make_locals(r, new)
+        self.frames.append((r, new))
         try:
             self.run_body(r["body"], new)
         except _Return:
             pass
+        finally:
+            self.frames.pop()
         if want_result:
             return self.rd(new[r["result"].lower()])
         return None
